@@ -256,6 +256,10 @@ def read_dispatch(repo, unrec):
             unrec.append("%s: Drop for Entered: does not set can_enter back" % W)
     else:
         unrec.append("%s: get_current / State::enter: shape not recognised" % W)
+    # CURRENT_STATE's destruction must only drop the default: no `impl Drop for State` (the guards do all the SCOPED_COUNT bookkeeping)
+    if re.search(r"impl\s+Drop\s+for\s+State\b", src):
+        unrec.append("%s: State has a Drop impl: the model assumes that destroying the thread-local only drops the installed default" % W)
+        d["close_dead"] = False
     d["sd_enters"] = d["prior"] != "PriorUnknown"     # the recognised shapes of State::set_default begin with `state.can_enter.set(true);`
     return d
 
@@ -545,34 +549,58 @@ def read_callsite(repo, unrec):
 
 def read_static_max(repo, unrec):
     """level_filters.rs get_max_level_inner -> (rows [(feature, consulted only without debug assertions?, level rank)] in source order,
-    does a build without debug assertions that matches no release row FALL THROUGH to the max_level_* rows?).  A build that matches
-    no row at all gets TRACE.  Two shapes are read: the nested if-chain with a final `else { TRACE }` in the release half (no fall
-    through), and a release half made of early `return`s followed by the max_level_* chain (fall through)."""
+    does a build without debug assertions that matches no release row FALL THROUGH to the max_level_* rows?,
+    does the LAST enabled row of a family win instead of the first?).  A build that matches no row at all gets TRACE.
+    Three shapes are read: the nested if-chain with a final `else { TRACE }` in the release half; a release half made of early
+    `return`s followed by the max_level_* chain (fall through); and two `(cfg!(feature), level)` tables handed to a
+    `select_max_level` loop that starts from TRACE and overwrites on every enabled entry (last wins)."""
     W = "level_filters.rs"
     src = read_src(repo, "tracing/src/level_filters.rs", unrec)
     bs = [squash(x) for x in fn_bodies(src, "get_max_level_inner")]
     if len(bs) != 1 or not re.search(r"pub\s+const\s+STATIC_MAX_LEVEL\s*:\s*LevelFilter\s*=\s*get_max_level_inner\(\)\s*;", src):
         unrec.append("%s: STATIC_MAX_LEVEL = get_max_level_inner() not recognised" % W)
-        return [], False
+        return [], False, False
     chain = r"((?:ifcfg!\(feature=\"\w+\"\)\{LevelFilter::\w+\}else)+)\{LevelFilter::TRACE\}"
     rchain = r"((?:ifcfg!\(feature=\"\w+\"\)\{returnLevelFilter::\w+;\}(?:else)?)+)"
+    table = r"select_max_level\(\[((?:\(cfg!\(feature=\"\w+\"\),LevelFilter::\w+\),?)+)\]\)"
     m = re.fullmatch(r"ifcfg!\(not\(debug_assertions\)\)\{%s\}else%s" % (chain, chain), bs[0])
     m2 = re.fullmatch(r"ifcfg!\(not\(debug_assertions\)\)\{%s\}%s" % (rchain, chain), bs[0])
+    m3 = re.fullmatch(r"ifcfg!\(not\(debug_assertions\)\)\{%s\}else\{%s\}" % (table, table), bs[0])
+    ft = last = False
     if m:
-        groups, ft = ((m.group(1), True), (m.group(2), False)), False
+        groups = ((m.group(1), True), (m.group(2), False))
     elif m2:
         groups, ft = ((m2.group(1), True), (m2.group(2), False)), True
+    elif m3:
+        sel = [squash(x) for x in fn_bodies(src, "select_max_level")]
+        if sel != ["letmutmax_level=LevelFilter::TRACE;letmuti=0;whilei<features.len(){let(enabled,level)=features[i];ifenabled{max_level=level;}i+=1;}max_level"]:
+            unrec.append("%s: select_max_level: loop not recognised" % W)
+            return [], False, False
+        groups, last = ((m3.group(1), True), (m3.group(2), False)), True
     else:
         unrec.append("%s: get_max_level_inner: if-chain not recognised" % W)
-        return [], False
+        return [], False, False
     tbl = []
     for grp, rel_only in groups:
-        for f, lv in re.findall(r"ifcfg!\(feature=\"(\w+)\"\)\{(?:return)?LevelFilter::(\w+);?\}(?:else)?", grp):
+        for f, lv in re.findall(r"cfg!\(feature=\"(\w+)\"\)[,{)]*(?:return)?LevelFilter::(\w+)", grp):
             if lv not in LEVEL_RANK:
                 unrec.append("%s: unknown level %s" % (W, lv))
-                return [], False
+                return [], False, False
             tbl.append((f, rel_only, LEVEL_RANK[lv]))
-    return tbl, ft
+    return tbl, ft, last
+
+
+def read_try_init(repo):
+    """tracing-subscriber/src/util.rs SubscriberInitExt::try_init: the first thing it does must be
+    `dispatch::set_global_default(self.into()).map_err(TryInitError::new)?;` (then, with `tracing-log`, the LogTracer; then Ok).
+    Python-side only (C02's `tryinit` op).  Returns a list of unrecognised items."""
+    unrec = []
+    src = read_src(repo, "tracing-subscriber/src/util.rs", unrec)
+    bs = [squash(x) for x in fn_bodies(src, "try_init")]
+    if len(bs) != 1 or not re.fullmatch(r"dispatch::set_global_default\(self\.into\(\)\)\.map_err\(TryInitError::new\)\?;"
+                                        r"(#\[cfg\(feature=\"tracing-log\"\)\]tracing_log::LogTracer::builder\(\).*?\.init\(\)\.map_err\(TryInitError::new\)\?;)?Ok\(\(\)\)", bs[0] if bs else ""):
+        unrec.append("util.rs: SubscriberInitExt::try_init is not `set_global_default(self.into())?; [LogTracer]; Ok(())`")
+    return unrec
 
 
 # ------------------------------------------------------------------------------------------------
@@ -594,7 +622,7 @@ def shapes(repo):
     g.update(read_lib(repo, unrec_g))
     g.update(read_collect(repo, unrec_g))
     g.update(read_callsite(repo, unrec_g))
-    g["static"], g["static_ft"] = read_static_max(repo, unrec_g)
+    g["static"], g["static_ft"], g["static_last"] = read_static_max(repo, unrec_g)
     fx = None
     quad = (d["slow"], d["current"], d["prior"], d["restore"])
     if quad == ("NoneUsesGlobal", "NoneUsesGlobal", "PriorIsOption", "RestoreAlways"):
@@ -658,7 +686,8 @@ def main(repo, _unused=None):
          "  g_fold := %s;" % g["fold"],
          "  g_rebuild := %s;" % g["rebuild"],
          "  g_static_max := %s;" % coq_list("(\"%s\", %s, %d)" % (f, b(r), l) for f, r, l in g["static"]),
-         "  g_static_release_falls_through := %s |}." % b(g["static_ft"]),
+         "  g_static_release_falls_through := %s;" % b(g["static_ft"]),
+         "  g_static_last_wins := %s |}." % b(g["static_last"]),
          "",
          "(* shapes the translator could not recognise on this run (the pinned theorems need these lists empty):",
          "   dispatch.rs's default machinery (C02, and C01 through get_default), and everything else (C01) *)",
